@@ -39,6 +39,7 @@ package mailbox
 // Resume: a mailbox that was paused is un-paused, and if nobody is processing a consumer is started - the
 // waiting user mail needs no later send. At most one consumer is started, and none when one is running.
 //@ func (*UnboundedMailbox).Resume
+//@   callspec CompareAndSwapUint32 requires arg0 == &m.status ==> m.paused == 0
 //@   modifies m.paused, m.status, ghost(spawned)
 //@   ensures  m.paused == 0 || (old(m.paused) != 1 && m.paused == old(m.paused))
 //@   ensures  old(m.paused) == 1 && old(m.status) == 0 ==> m.status == 1 && ghost(spawned) == old(ghost(spawned)) + 1
@@ -49,6 +50,8 @@ package mailbox
 // counted, and on return a consumer is running: started here if the mailbox was idle, never a second one.
 // (resource assumption: fewer than 2^31-1 envelopes are queued, so the int32 counters do not wrap)
 //@ func (*UnboundedMailbox).Enqueue
+// producer's half of "no lost wake-up": the envelope is in its queue and counted BEFORE the producer tries the token
+//@   callspec CompareAndSwapUint32 requires m.num + m.systemNum == old(m.num) + old(m.systemNum) + 1 && queues.size(m.buffer) + queues.size(m.systemBuffer) == old(queues.size(m.buffer)) + old(queues.size(m.systemBuffer)) + 1
 //@   requires mbwf(m) && envelop != nil && m.num < 2147483647 && m.systemNum < 2147483647
 //@   modifies m.buffer.len, m.buffer.content, m.buffer.content.tail, m.buffer.content.buffer[*], m.systemBuffer.len, m.systemBuffer.content, m.systemBuffer.content.tail, m.systemBuffer.content.buffer[*], m.num, m.systemNum, m.status, ghost(spawned), anyold
 //@   ensures  queues.wf(m.buffer) && queues.wf(m.systemBuffer)
